@@ -100,3 +100,46 @@ def replay(ctx, prop, only=None):
     ctx.coverage["transitions"] = ctx.coverage.get("transitions", 0) + res["generated"]
     ctx.coverage["evaluations"] = ctx.coverage.get("evaluations", 0) + len(results)
     return len(results)
+
+
+def unhashable_default_leg(ctx, prop):
+    """The default parameter set loads but cannot produce a hash (scryptauth without `cost`: N = 1 is refused by scrypt
+    itself).  Every write must fail and leave the directory exactly as it was - no reservation, no work file - and the
+    user must not exist afterwards; the records of the usable set keep working."""
+    import base64, fsfam
+    exe = ctx.build_agent()
+    root = os.path.join(ctx.scratch, "unhashable")
+    base = os.path.join(root, "base")
+    os.makedirs(os.path.join(base, ".tmp"), exist_ok=True)
+    good = fsfam.scrypt_record(b"pw").encode()
+    open(os.path.join(base, "boss.admin"), "wb").write(good)
+    open(os.path.join(base, "carol.user"), "wb").write(good + b"totp: QUJD\n")
+    cfg = os.path.join(root, "store.yaml")
+    key = base64.b64encode(fsfam.HMAC1).decode()
+    open(cfg, "w").write('basedir: "%s"\ndefault: 7\nparams:\n  - id: 1\n    scryptauth:\n      hmackey: %s\n      cost: 2\n'
+                         '  - id: 7\n    scryptauth:\n      hmackey: %s\n' % (base, key, key))
+    env = dict(os.environ, WHAWTY_AUTH_STORE_CONFIG=cfg)
+    run = lambda *a: subprocess.run([exe] + list(a), env=env, stdout=subprocess.PIPE, stderr=subprocess.STDOUT, text=True, timeout=30,
+                                    stdin=subprocess.DEVNULL)
+    r = run("check")
+    if r.returncode != 0:
+        return 0          # this tree refuses such a configuration altogether: nothing to observe
+    n = 1
+    before = snap(base, dirs=True)
+    for cmd in (["add", "dave", "some password"], ["update", "carol", "another password"], ["add", "dave", "some password"]):
+        r = run(*cmd)
+        n += 1
+        after = snap(base, dirs=True)
+        if r.returncode == 0:
+            continue      # the set can hash after all on this tree
+        if after != before:
+            diff = sorted(set(after.items()) ^ set(before.items()))
+            ctx.violation(prop, "failed-write-changed-store:unhashable-default:" + cmd[0],
+                          "`%s` failed (exit %d) and the directory changed: %s" % (" ".join(cmd[:2]), r.returncode, diff[:4]))
+            before = after
+    r = run("authenticate", "carol", "pw")
+    n += 1
+    if r.returncode != 0 and snap(base, dirs=True).get("carol.user") == before.get("carol.user"):
+        ctx.violation(prop, "login-refused-after-failed-update:unhashable-default", "carol's record is unchanged, exit %d: %s" % (r.returncode, r.stdout[-200:]))
+    shutil.rmtree(root, ignore_errors=True)
+    return n
